@@ -1675,7 +1675,11 @@ def gen_if_block(node, code, codegen):
     if cur_else_stmt and codegen.debug_info_enabled:
         code.add(('_dbg_info_end', cur_else_stmt))
 
-    gen_code_for_block(node.else_body, code, codegen)
+    # no empty block marker for an empty ELSE body: it would sit at
+    # the very end of the block, where the debug info would take it
+    # for a marker of the block that follows.
+    if node.else_body:
+        gen_code_for_block(node.else_body, code, codegen)
     code.add(('_label', endif_label))
 
 
